@@ -357,7 +357,7 @@ class Manager:
         # TODO: let inbound/outbound create the endpoints, then return them
         # to us
         self._main_channel = OneShotObserver(self._eventual_queue)
-        self._subprotocol_factories = SubchannelDemultiplex()
+        self._subprotocol_factories = SubchannelDemultiplex(self._expected_subprotocols)
 
         # NOTE: circular refs, not ideal
         self._api = DilatedWormhole(self)
